@@ -2,7 +2,7 @@ package main
 
 // C15 — quoted text survives parsing and expansion unchanged.
 //
-// Space: all strings ≤ N over 16 significant characters × 4 quoting styles ×
+// Space: all strings ≤ N over 18 significant characters × 4 quoting styles ×
 // 6 expansion modes × adversarial environments (IFS made of the alphabet's
 // characters, HOME set, positional parameters set, a working directory that
 // contains files named like the strings).  Oracle: exactly one field equal
@@ -29,7 +29,7 @@ type c15Case struct {
 	Env   string `json:"env"`
 }
 
-var c15Alpha = []rune("a*?[]\\'\"$`~ \n#=é")
+var c15Alpha = []rune("a*?[]\\'\"$`~ \n#=é/.")
 
 func c15Quote(s, style string) (string, bool) {
 	var b strings.Builder
@@ -219,7 +219,7 @@ func init() {
 	register(&check{
 		id:    "C15",
 		level: "model_checking",
-		rule: "every string ≤ 4 (quick) / 5 (thorough) over {a * ? [ ] \\ ' \" $ ` ~ space newline # = é} × {single, double, backslash-each, mixed} quoting × 6 ExpModes × 4 environments " +
+		rule: "every string ≤ 4 (quick) / 5 (thorough) over {a * ? [ ] \\ ' \" $ ` ~ space newline # = é / .} × {single, double, backslash-each, mixed} quoting × 6 ExpModes × 4 environments " +
 			"(IFS made of the alphabet, HOME set, positional parameters set, working directory with files named like the strings); non-trivial = the string contains a character that is special to some expansion",
 		assume: []string{"backslash-newline is excluded from the backslash style (POSIX removes it, it is not a quoted newline)", "Pattern mode is judged with the pattern model of C12"},
 		run:    c15Run,
